@@ -194,11 +194,11 @@ class TlcResult:
 
 
 def tlc(module, cfg=None, workers=NCPU, timeout=900, env=None, simulate=None, depth=None, extra=(), heap='8g',
-        coverage=False, deadlock=True, dfs=False, cwd=None, seed=None):
+        coverage=False, deadlock=True, dfs=False, cwd=None, seed=None, stop_on_violation=False):
     """Run TLC on spec/<module>.tla with spec/<cfg>. Returns TlcResult. Never raises for a property violation."""
     cwd = cwd or SPEC
     meta = scratch('tlc')
-    jopts = ['-XX:+UseParallelGC', '-Xmx' + heap]
+    jopts = ['-XX:+UseParallelGC', '-Xmx' + heap, '-Xss64m']
     if dfs:
         jopts.append('-Dtlc2.tool.queue.IStateQueue=StateDeque')
     cmd = ['java'] + jopts + ['-cp', TLA_CP, 'tlc2.TLC', '-metadir', meta, '-workers', str(workers), '-noGenerateSpecTE']
@@ -216,9 +216,37 @@ def tlc(module, cfg=None, workers=NCPU, timeout=900, env=None, simulate=None, de
         cmd += ['-seed', str(seed)]
     cmd += list(extra) + [module]
     t0 = time.time()
-    p = sh(cmd, timeout=timeout, env=env, cwd=cwd)
-    r = TlcResult(); r.wall = time.time() - t0; r.rc = p.returncode; r.out = (p.stdout or '') + (p.stderr or '')
-    r.timed_out = getattr(p, 'timed_out', False)
+    r = TlcResult()
+    if stop_on_violation:
+        # trace validation: the violated invariant prints its position (ViolAt); do not wait for TLC to rebuild the behaviour
+        e = dict(os.environ)
+        if env: e.update({k: str(v) for k, v in env.items()})
+        pr = subprocess.Popen(cmd, stdout=subprocess.PIPE, stderr=subprocess.STDOUT, env=e, cwd=cwd, text=True)
+        import threading
+        buf = []; hit = [None]
+
+        def reader():
+            for ln in pr.stdout:
+                buf.append(ln)
+                if hit[0] is None and re.match(r'Error: Invariant \S+ is violated', ln):
+                    hit[0] = time.time()
+        th = threading.Thread(target=reader, daemon=True); th.start()
+        while True:
+            if pr.poll() is not None: break
+            if time.time() - t0 > timeout:
+                pr.kill(); r.timed_out = True; break
+            if hit[0] is not None and time.time() - hit[0] > 3.0:
+                pr.kill(); break
+            time.sleep(0.05)
+        th.join(timeout=5)
+        r.rc = pr.returncode if pr.returncode is not None else -9
+        r.out = ''.join(buf)
+        r.killed_after_violation = hit[0] is not None and r.rc != 0 and 'states generated' not in r.out.split('is violated')[-1]
+    else:
+        p = sh(cmd, timeout=timeout, env=env, cwd=cwd)
+        r.rc = p.returncode; r.out = (p.stdout or '') + (p.stderr or '')
+        r.timed_out = getattr(p, 'timed_out', False)
+    r.wall = time.time() - t0
     rmtree(meta)
     _parse_tlc(r)
     return r
@@ -247,7 +275,10 @@ def _parse_tlc(r):
         elif 'Model checking completed. No error has been found' in out or 'Finished computing initial states' in out and r.rc == 0:
             pass
         elif r.rc != 0 and 'Simulation' not in out:
-            r.error = 'tlc rc=%s: %s' % (r.rc, out[-1500:])
+            errs = [i for i, ln in enumerate(out.split('\n')) if ln.startswith('Error:')]
+            lines = out.split('\n')
+            detail = '\n'.join('\n'.join(lines[i:i + 14]) for i in errs[:3]) if errs else out[-1500:]
+            r.error = 'tlc rc=%s: %s' % (r.rc, detail[-4000:])
         elif re.search(r'Error:|Exception', out) and 'No error has been found' not in out:
             r.error = 'tlc error: %s' % out[-1500:]
     else:
@@ -255,7 +286,10 @@ def _parse_tlc(r):
         # TLC runtime error while evaluating is infrastructure
         if re.search(r'Error: Evaluating invariant|was not in the domain|Attempted to', out):
             r.error = 'tlc evaluation error: %s' % out[-2500:]
-    r.printed = re.findall(r'^<<"pr",(.*)>>$', out, re.M)
+    r.printed = re.findall(r'^<<"pr", *(.*)>>$', out, re.M)
+    r.viol_at = None
+    mm = re.search(r'^<<"pr", *"(\w+)", *(\d+)>>$', out, re.M)
+    if mm: r.viol_at = (mm.group(1), int(mm.group(2)))
     # counterexample
     states = re.split(r'\nState \d+: ', out)
     if len(states) > 1:
@@ -281,7 +315,7 @@ def trace_validate(module, cfg, trace_path, timeout=900, extra_env=None, heap='6
     e = {'TRACE': trace_path}
     if extra_env: e.update(extra_env)
     n = count_lines(trace_path)
-    r = tlc(module, cfg, workers=1, timeout=timeout, env=e, deadlock=False, heap=heap, dfs=dfs)
+    r = tlc(module, cfg, workers=1, timeout=timeout, env=e, deadlock=False, heap=heap, dfs=dfs, stop_on_violation=True)
     out = dict(accepted=False, violated=None, prefix=None, lines=n, res=r)
     if silent_steps:
         if r.violated == 'NotAccepted':
@@ -296,7 +330,10 @@ def trace_validate(module, cfg, trace_path, timeout=900, extra_env=None, heap='6
         raise Broken('TLC failed on %s: %s' % (module, r.error))
     if r.violated:
         out['violated'] = r.violated
-        out['prefix'] = max(0, len(r.trace) - 2 + header_lines)   # 0-based index of the line whose consumption broke the invariant
+        if getattr(r, 'viol_at', None):
+            out['prefix'] = max(0, r.viol_at[1] - 2)   # l points at the next line (1-based): the consumed line is l-1, 0-based l-2
+        else:
+            out['prefix'] = max(0, len(r.trace) - 2 + header_lines)   # 0-based index of the line whose consumption broke the invariant
         return out
     if r.depth == n + 1 - header_lines:
         out['accepted'] = True
